@@ -36,9 +36,15 @@ PARTIAL = ["tree level, error bound: proved are (i) one projector insertion at t
            "trunc_error_telescoping). ASSUMED, validated by the dense error check on every run: that for the "
            "insertions below the root the rest of the network has norm <= max(1,|psi|), and that the contractions "
            "between two insertions leave the state unchanged; svd_truncation's sweep is covered only by (i)+(iii)",
-           "tree level, structure: identifiers, parents and children are preserved by theorem "
-           "(*_structure_partial, on the C02 model); open legs / that every bond equals the length of a kept "
-           "prefix (hence <= max_bond_dim) are decided by the oracle only",
+           "tree level, structure: proved on the C02 structural model under well-formedness and the label invariant "
+           "(truncate_node_structure, recursive_truncation_core_structure: same root, identifiers, parents, children "
+           "lists order included; recursive_truncation_structure, svd_truncation_structure: children up to order; "
+           "contract_split_structure: the lower node becomes the first child) - each with well-formedness and the label "
+           "invariant preserved and every node keeping exactly its open axes (labels, order, dimensions); the older "
+           "*_structure_partial theorems are kept with their weaker statements (identifiers / parents / children only). "
+           "The kept dimensions and the order of the canonicalisation moves are INPUTS of that model (compared with the "
+           "library by the comp stream of C02); that every bond equals the length of a kept prefix (hence <= "
+           "max_bond_dim) is decided by the oracle only",
            "floating point: the model is exact; decisions closer than 1e-12 to a boundary are skipped unless "
            "the float computation is exact"]
 ASSUMPTIONS = ["svd_truncation is given a state with an orthogonality centre (it raises AssertionError otherwise: "
